@@ -522,7 +522,9 @@ func runServe(args []string) string {
 		// … or it has served one under another OnSession: the callback (or its absence) that counts for a request is the
 		// one the exported field holds when the request arrives, not the one an earlier request was served with
 		real := srv.OnSession
-		srv.OnSession = func(http.ResponseWriter, *http.Request) ([]string, bool) { return []string{"stale-callback-topic"}, true }
+		srv.OnSession = func(http.ResponseWriter, *http.Request) ([]string, bool) {
+			return []string{"stale-callback-topic"}, true
+		}
 		prov.warming = true
 		srv.ServeHTTP(httptest.NewRecorder(), newRequest())
 		prov.warming = false
